@@ -168,6 +168,22 @@ func newHandlerOpt(w *world, opt handlerOpt) http.Handler {
 	for l, k := range w.KEKs {
 		keks[l] = append([]byte{}, k...)
 	}
+	// the KEK of a network server is configured under the SenderID in that server's spelling (see senderID); the lower-case
+	// label stays only where an application server uses the same string as its own label
+	for l, k := range w.KEKs {
+		var id uint32
+		if n, err := fmt.Sscanf(l, "%06x", &id); len(l) != 6 || n != 1 || err != nil || fmt.Sprintf("%06x", id) != l || netLabel(id) == l {
+			continue
+		}
+		keks[netLabel(id)] = append([]byte{}, k...)
+		asToo := false
+		for i := range w.Devices {
+			asToo = asToo || w.Devices[i].ASLabel == l
+		}
+		if !asToo {
+			delete(keks, l)
+		}
+	}
 	anyLabel := false
 	for i := range w.Devices {
 		anyLabel = anyLabel || w.Devices[i].Known && w.Devices[i].ASLabel != ""
@@ -320,8 +336,21 @@ type jsonAns struct {
 	HNetID      string    `json:"HNetID"`
 }
 
-func senderID(rq *request) string   { return fmt.Sprintf("%06x", rq.NetID&0xffffff) }
-func receiverID(rq *request) string { return fmt.Sprintf("%016x", uint64(rq.JoinEUI)) }
+// senderID is the SenderID as that network server writes it: the backend interfaces prescribe no case for hexadecimal
+// strings, and here the networks with an odd NetID use capital digits - in their requests and, consistently, as the label
+// under which their KEK is configured (newHandlerOpt)
+func senderID(rq *request) string { return netLabel(rq.NetID) }
+
+func netLabel(netID uint32) string {
+	if netID&1 == 1 {
+		return fmt.Sprintf("%06X", netID&0xffffff)
+	}
+	return fmt.Sprintf("%06x", netID&0xffffff)
+}
+
+// nsKEK is the KEK configured for the network server of the request (the world writes all labels in lower case)
+func nsKEK(w *world, rq *request) []byte { return w.KEKs[fmt.Sprintf("%06x", rq.NetID&0xffffff)] }
+func receiverID(rq *request) string      { return fmt.Sprintf("%016x", uint64(rq.JoinEUI)) }
 
 func dlSettingsByte(rq *request) byte {
 	b := rq.RX1DROffset&7<<4 | rq.RX2DR&0x0f
@@ -409,7 +438,7 @@ func (k keySet) String() string {
 }
 
 func kekClass(w *world, d *device, rq *request) (ns, as bool, class string) {
-	ns = len(w.KEKs[senderID(rq)]) > 0
+	ns = len(nsKEK(w, rq)) > 0
 	as = d.ASLabel != "" && len(w.KEKs[d.ASLabel]) > 0
 	switch {
 	case ns && as:
@@ -578,7 +607,7 @@ func judge(w *world, rq *request, status int, ansBody []byte, acceptK4 bool) ver
 
 	// ---- the NS and the AS open the envelopes ----
 	nsW, asW, _ := kekClass(w, d, rq)
-	nsLabel, nsKEK := senderID(rq), []byte(w.KEKs[senderID(rq)])
+	nsLabel, nsKEK := senderID(rq), []byte(nsKEK(w, rq))
 	asKEK := []byte(w.KEKs[d.ASLabel])
 	var got keySet
 	var msg string
